@@ -1,11 +1,74 @@
-(* C07 — proof obligations (statements only; every proof is `exact <lemma>`). *)
+(* C07 — gradients through operators equal gradients through the dense computation: proof obligations.
+   Statements only; every proof is `exact <lemma of Proofs*.v>`.  K is an arbitrary commutative ring
+   (`RingLaws K` = Coq's ring_theory), so the identities hold over the reals and are exact over Z, where the
+   correspondence shards evaluate them. *)
 From Coq Require Import List Arith Bool ZArith.
 Import ListNotations.
 Require Import C07.Model C07.ProofsBase C07.ProofsRouting C07.ProofsSizes C07.ProofsW C07.ProofsLeaf C07.ProofsToeplitz
   C07.ProofsComposite C07.ProofsMain.
 
-(* positional contract: one slot per tensor of representation(), for any nesting *)
-Theorem bilinear_alignment_length (K : RingOps) fx (e : OpExpr K) :
+Section Statements.
+Context {K : RingOps} {Kth : RingLaws K}.
+
+(* ---- the positional contract every autograd Function relies on: `_bilinear_derivative` returns one slot per tensor of
+   representation(), for any nesting.  (The pinned IdentityLinearOperator violates it — refuted below — hence the guard.) *)
+Theorem bilinear_alignment_length fx (e : OpExpr K) :
   (fx_identity fx = true \/ no_identity e = true) ->
   forall U V, length (alg_bd K fx e U V) = length (representation K e).
 Proof. exact (@alg_bd_length K fx e). Qed.
+
+(* slot k belongs to leaf k: index tensors get None or zeros, masks get None; in the default path a floating tensor that does
+   not require grad gets None (so every requires_grad subset keeps the alignment) *)
+Theorem bilinear_alignment_kinds fx (e : OpExpr K) :
+  (fx_identity fx = true \/ no_identity e = true) ->
+  forall U V, Forall2 slot_kind_ok (representation K e) (alg_bd K fx e U V).
+Proof. exact (@alg_bd_kinds K fx e). Qed.
+
+Theorem alignment_identity_refuted (U V : tensor K) :
+  exists e, length (alg_bd K pinned e U V) <> length (representation K e).
+Proof. exact (@ProofsRouting.alignment_identity_refuted K U V). Qed.
+
+(* ---- representation_tree()( *representation()) rebuilds the operator (what Matmul.backward & co. differentiate, with
+   memory_efficient on or off), for any nesting — unless a CholLinearOperator(upper=True) occurs on the pinned tree *)
+Theorem rebuild_roundtrip fx (e : OpExpr K) :
+  (fx_chol fx = true \/ no_chol_upper e = true) -> rebuild K fx e (representation K e) = e.
+Proof. exact (@ProofsRouting.rebuild_roundtrip K fx e). Qed.
+
+Theorem rebuild_chol_upper_refuted (x : OpExpr K) :
+  rebuild K pinned (Chol K x true) (representation K (Chol K x true)) <> Chol K x true.
+Proof. exact (@ProofsRouting.rebuild_chol_upper_refuted K x). Qed.
+
+(* ---- the coefficient identity.  For an operator whose matrix is affine in leaf k,
+        sum_b sum_d u_d^T A(theta_k + delta) v_d  -  sum_b sum_d u_d^T A(theta) v_d  =  < slot k , delta >
+   for ALL delta characterises slot k as the gradient with respect to leaf k (no limit is needed).
+   B: batch shape of the vectors (the operator's batch shape expands to it), D: number of vectors. *)
+Definition coefficient_identity (fx : fixes) (e : OpExpr K) : Prop :=
+  forall B D U V k t rg delta g,
+    tshape K U = D :: nrows K e :: B -> tshape K V = D :: ncols K e :: B ->
+    expandable (bshape K e) B = true -> csafe fx e B ->
+    nth_error (representation K e) k = Some (LF K t rg) -> tshape K delta = tshape K t ->
+    nth_error (alg_bd K fx e U V) k = Some (Some g) ->
+    rsub K (bil K (perturb K e k delta) B D U V) (bil K e B D U V) = pair K g delta.
+
+Theorem coefficient_Dense fx t rg : wf (Dense K t rg) -> coefficient_identity fx (Dense K t rg).
+Proof. exact (coeff_Dense fx t rg). Qed.
+Theorem coefficient_Diag fx t rg : wf (Diag K t rg) -> coefficient_identity fx (Diag K t rg).
+Proof. exact (coeff_Diag fx t rg). Qed.
+Theorem coefficient_ConstantDiag fx t rg n : wf (ConstantDiag K t rg n) -> coefficient_identity fx (ConstantDiag K t rg n).
+Proof. exact (coeff_CDiag fx t rg n). Qed.
+(* csafe: on the pinned tree the collapse `res.view(-1, *column.shape).sum(0)` is the reduction to the column's shape only
+   when collapse_safe holds (no broadcast size-1 batch dimension of the column below extra leading dimensions) *)
+Theorem coefficient_Toeplitz fx t rg : wf (Toeplitz K t rg) -> coefficient_identity fx (Toeplitz K t rg).
+Proof. exact (coeff_Toeplitz fx t rg). Qed.
+
+End Statements.
+
+(* ---- the hypotheses are satisfiable *)
+Example wf_dense_ex : wf (Dense ZK (of_flat ZK [2; 2; 3] [1; 2; 3; 4; 5; 6; 7; 8; 9; 10; 11; 12]%Z) true).
+Proof. simpl. auto. Qed.
+Example wf_toeplitz_ex : wf (Toeplitz ZK (of_flat ZK [3; 2] [1; 2; 3; 4; 5; 6]%Z) true).
+Proof. simpl. split; [auto | repeat constructor]. Qed.
+Example csafe_toeplitz_ex : csafe pinned (Toeplitz ZK (of_flat ZK [3; 2] [1; 2; 3; 4; 5; 6]%Z) true) [2].
+Proof. simpl. unfold collapse_safe. simpl. auto. Qed.
+Example no_identity_ex : no_identity (Sum ZK [Dense ZK (of_flat ZK [2; 2] [1; 2; 3; 4]%Z) true; Diag ZK (of_flat ZK [2] [1; 2]%Z) false]) = true.
+Proof. reflexivity. Qed.
